@@ -16,7 +16,7 @@ PATHS_C = '{"a","b","d/c","d/e"}'
 CATS = {
     'C05': ('crash', 'exit', 'tree', 'applied'),
     'C08': ('crash', 'backup-set', 'backup-content', 'backup-mode', 'applied', 'popsim'),
-    'C13': ('crash', 'rej-set', 'rej-content'),
+    'C13': ('crash', 'rej-set', 'rej-content', 'rej-parse'),
 }
 CFGSET = {'C05': 'Cfgs_push', 'C08': 'Cfgs_backup', 'C13': 'Cfgs_one'}
 WHAT = {
@@ -25,7 +25,7 @@ WHAT = {
     'applied': '.pc/applied-patches does not hold exactly the applied names',
     'backup-set': 'set of quilt backup files differs from the reference', 'backup-content': 'a backup file does not hold the pre-patch content',
     'backup-mode': 'a backup file does not carry the pre-patch mode', 'popsim': 'restoring the backups newest-first does not recreate the earlier tree',
-    'rej-set': 'set of reject files differs from the reference', 'rej-content': 'a reject file does not hold exactly the failed hunks',
+    'rej-set': 'set of reject files differs from the reference', 'rej-parse': 'a reject file is not a well-formed patch for its file', 'rej-content': 'a reject file does not hold exactly the failed hunks',
 }
 
 
@@ -66,6 +66,8 @@ def run_one(job):
                 if wt != gt:
                     probs.append(('popsim', 'pop simulation gives %s, tree before patch %d was %s' % (
                         {p: scen.cells_of(v) for p, v in gt.items()}, oldest, {p: scen.cells_of(v) for p, v in wt.items()})))
+        # reject files are handed back so that C13 can feed them to the real parser and writer as well
+        probs += [('_rej', (p_, v_[0].hex())) for p_, v_ in snap.items() if p_.endswith('.rej') and not p_.startswith('.pc/')]
         return probs, rc, se[-300:]
     finally:
         ws.rmws(w)
@@ -121,6 +123,31 @@ def check_scenarios(prop, tier):
             stat = {'scenarios_enumerated': len(lines), 'scenarios_replayed': len(pick) - nadv, 'adversarial_skipped': nadv, 'runs': len(jobs),
                     'runs_with_failing_patch': sum(1 for j in jobs if j[2]['exit'] == 1), 'runs_with_backups': sum(1 for j in jobs if j[2]['backups'])}
             res.cov['parts'][tag].update(stat)
+            if prop == 'C13':
+                # every reject file must itself be a patch the real parser accepts, for that file, and a fixed point of write/parse
+                import p_text
+                rj = []
+                for (sc, cfg, o, threads, _), (probs, rc, se) in zip(jobs, outs):
+                    for cat, msg in probs:
+                        if cat == '_rej':
+                            rj.append({'id': len(rj), 'patch': bytes.fromhex(msg[1]), 'path': msg[0], 'sc': sc})
+                if rj:
+                    obs = p_text.run_rt(rj)
+                    nbad = 0
+                    for j in rj:
+                        r = obs.get(j['id'], {'status': 'missing'})
+                        want = j['path'][:-4].encode().hex()
+                        why = None
+                        if r.get('status') != 'ok' or r.get('status2') != 'ok':
+                            why = 'is not accepted by the parser (%s / %s)' % (r.get('status'), r.get('status2'))
+                        elif any(fp['old'] not in (want, None) or fp['new'] not in (want, None) for fp in r['p1']):
+                            why = 'does not name the file it belongs to'
+                        elif r['w1'] != r['w2'] or p_text.same_c12(r['p1'], r['p2']):
+                            why = 'is not a fixed point of write/parse'
+                        if why:
+                            nbad += 1
+                            res.violation('rej-parse', 'reject file %s %s' % (j['path'], why), {'rej': j['patch'].decode('latin-1'), 'tree0': j['sc']['tree0'], 'series': j['sc']['series']})
+                    res.cov['parts'][tag].update({'reject_files_parsed': len(rj), 'reject_files_bad': nbad})
             for (sc, cfg, o, threads, _), (probs, rc, se) in zip(jobs, outs):
                 for cat, msg in probs:
                     if cat in CATS[prop]:
